@@ -7,6 +7,7 @@ import (
 	"crypto/sha512"
 	"fmt"
 	"math"
+	"strconv"
 	"strings"
 
 	"github.com/rulego/streamsql/functions"
@@ -99,7 +100,18 @@ func extremum(greatest bool) func(a []rv) (rv, string) {
 					best = x
 				}
 			case 's':
-				if (greatest && x.s > best.s) || (!greatest && x.s < best.s) {
+				// the guide only says "the largest / smallest of the arguments"; the function's own definition
+				// compares two texts numerically when both read as numbers ("10" > "2.00") and as text otherwise
+				xf, e1 := strconv.ParseFloat(x.s, 64)
+				bf, e2 := strconv.ParseFloat(best.s, 64)
+				if e1 == nil && e2 == nil {
+					if xf == bf {
+						return rNull, "numeric-text-tie" // which of two equal-valued spellings is returned is not fixed
+					}
+					if (greatest && xf > bf) || (!greatest && xf < bf) {
+						best = x
+					}
+				} else if (greatest && x.s > best.s) || (!greatest && x.s < best.s) {
 					best = x
 				}
 			default:
